@@ -2,7 +2,7 @@
 
 Space: object types {Waves, Images, DiffractionPatterns, Real/ReciprocalSpaceLineProfiles, PolarMeasurements,
 MeasurementsEnsemble} x ensemble shapes {(), (3,), (2,3)} x axis kinds per axis {Ordinal, Scan (linear), Tilt (pair values),
-Positions, FrozenPhonons (plain)} x lazy/eager x operations: index expressions from {i, -1, a:b, ::2, 1:, [i,j], bool mask,
+Positions, FrozenPhonons (plain)} x lazy/eager x operations: index expressions from {i, -1, a:b, ::2, 1:, 1::2, 1:n:2, 2::3, 1:n+3, [i,j], bool mask,
 None and all pairs thereof, too many indices, base axes}, stack (axis 0/1), concatenate (each ensemble axis), squeeze,
 expand_dims (each position), mean/sum/std/min/max (each axis subset, keepdims), arithmetic obj o obj, obj o scalar,
 scalar o obj, obj o ndarray for + - * / ** and the in-place forms.
@@ -94,7 +94,8 @@ def arr_of(o):
 
 
 def index_alphabet(n):
-    al = [0, n - 1, -1, slice(0, 2), slice(None, None, 2), slice(1, None), [0, n - 1], np.array([True] + [False] * (n - 2) + [True])[:n] if n > 1 else np.array([True]), None]
+    al = [0, n - 1, -1, slice(0, 2), slice(None, None, 2), slice(1, None),
+          slice(1, None, 2), slice(1, n, 2), slice(2, None, 3), slice(1, n + 3, 1), [0, n - 1], np.array([True] + [False] * (n - 2) + [True])[:n] if n > 1 else np.array([True]), None]
     return al
 
 
